@@ -40,6 +40,7 @@ Section WFNode.
     - constructor.
     - intros k l H. discriminate.
     - intros i j. destruct (directed s || Nat.leb i j); destruct i; reflexivity.
+    - split; [constructor|]. intros i m H. discriminate.
     - split; [reflexivity|]. intros i row H. destruct i; discriminate.
     - split; [reflexivity|]. intros i row H. destruct i; discriminate.
     - intros i H. lia.
@@ -61,7 +62,7 @@ Section WFNode.
     (forall i, lookup Nat.eqb i (nodes_map_rev g') = nth_error (nodes_vec g') i) ->
     WF g'.
   Proof.
-    intros [H1 H2 H3 H4 H5 H6 H7 H8 H9 H10 H11 H12 H13 H14] En Enm Ee Eem Esp Esu Esm Esv Epr Epm Epv Hrev.
+    intros [H1 H2 H3 H4 H5 H6 H6b H7 H8 H9 H10 H11 H12 H13 H14] En Enm Ee Eem Esp Esu Esm Esv Epr Epm Epv Hrev.
     constructor;
       unfold pred_rel, grp_of, group_idx, name_at, nn, group in *;
       rewrite ?En, ?Enm, ?Ee, ?Eem, ?Esp, ?Esu, ?Esm, ?Esv, ?Epr, ?Epm, ?Epv; try assumption.
@@ -269,6 +270,7 @@ Section WFNode.
       destruct (wf_egroup _ _ _ W _ _ H) as (H1 & H2 & H3 & H4 & H5 & H6 & H7).
       rewrite Hnames. repeat split; try assumption; apply in_or_app; left; assumption.
     - intros i j. rewrite Hgrp. apply (wf_emap _ _ _ W).
+    - apply (wf_emkeys _ _ _ W).
     - destruct (wf_sv _ _ _ W) as (Hl & Hr). split.
       + simpl. rewrite app_length, Hnn, Hl, Hnn0. simpl. lia.
       + intros i row Hrow. simpl in Hrow. change (sp g') with (sp g).
